@@ -987,7 +987,11 @@ fn main() {
                 if fault_free && (scn.sessions.last().map(|s| s.files.len()).unwrap_or(0) < 2 || scn.family == "inject-persist" || (args.tier == Tier::Quick && cfg.name != "I2-uploads2")) {
                     continue;
                 }
-                for budget in if fault_free { vec![0usize] } else { args.tier.pick(vec![0usize, 1], vec![0, 1, 2, 99]) } {
+                // C14x judges successful sessions only, so it needs no injected failure (and no persisting driver)
+                if prop == "C14x" && scn.family == "inject-persist" {
+                    continue;
+                }
+                for budget in if fault_free || prop == "C14x" { vec![0usize] } else { args.tier.pick(vec![0usize, 1], vec![0, 1, 2, 99]) } {
                     let spec = json!({"cfg": cfg.to_json(), "scenario": scn.to_json(), "budget": budget, "cap": args.tier.pick(12000, 40000)});
                     jobs.push(Job { name: format!("{}/{}/b{budget}", cfg.name, scn.label()), env: cfg.env(), args: vec!["--worker".into(), spec.to_string()] });
                 }
